@@ -96,8 +96,8 @@ def classify(div, ctx=None):
             oo = {json.dumps(x, sort_keys=True) for x in (obs or {}).get("v", [])}
             ek = {json.loads(x)["key"] for x in eo}
             ok_ = {json.loads(x)["key"] for x in oo}
-            if ek == ok_ and eo != oo:
-                props.add("C11")
+            # (an entry listed with other field values than the lookup's is C10's subject: the
+            # listed entry may well be a verbatim - but stale - record, which C11 does not exclude)
             if ek != ok_:
                 props |= {"C09", "C06"}
         if name == "exists":
@@ -128,7 +128,11 @@ def classify(div, ctx=None):
         if last in ("remove", "remove_hash", "remove_fully", "clear"):
             props.add("C09")
         if last in ("w_commit", "write", "h_drop", "w_close", "open_writer", "w_write"):
-            props |= {"C08", "C14"}
+            props |= {"C08"}
+            # an index record left by a writer that was abandoned or whose commit was REJECTED is
+            # C14's subject; a record written by a commit that reported success is not
+            if last != "w_commit" or ctx.get("last_res_ok") is False:
+                props |= {"C14"}
         props |= {"C11"}
         if last in ("link_to", "l_commit"):
             props.add("C19")
@@ -166,12 +170,14 @@ def classify(div, ctx=None):
     return props
 
 
-def last_call_before(trace_lines, line):
+def last_call_before(trace_lines, line, with_res=False):
     for j in range(line - 1, 0, -1):
         try:
             ev = json.loads(trace_lines[j - 1])
         except Exception:
             continue
         if ev.get("ev") in ("call", "env"):
+            if with_res:
+                return ev["op"].get("op", ""), (ev.get("res") or {}).get("ok")
             return ev["op"].get("op", "")
-    return ""
+    return ("", None) if with_res else ""
